@@ -143,12 +143,12 @@ func runC01(c *Ctx, _ []string) {
 		n     int
 	}
 	corpus := []fixed{
-		{sCfg{"NONE", "NONE", 4096, 4, 0, 4096, false}, "text", 32768},       // F2: hint smaller than the data
+		{sCfg{"NONE", "NONE", 4096, 4, 0, 4096, false}, "text", 32768},      // F2: hint smaller than the data
 		{sCfg{"NONE", "NONE", 1024, 64, 32, 102400, false}, "text", 102400}, // F2': exact hint >= 63 blocks, 64 jobs
-		{sCfg{"ROLZX", "NONE", 65536, 1, 32, 0, false}, "dna", 65536},        // F9
+		{sCfg{"ROLZX", "NONE", 65536, 1, 32, 0, false}, "dna", 65536},       // F9
 		{sCfg{"NONE", "ANS0", 65536, 1, 32, 0, false}, "skewed", 40000},
 		{sCfg{"NONE", "RANGE", 65536, 1, 32, 0, false}, "skewed", 40000},
-		{sCfg{"LZ", "TPAQ", 65536, 2, 32, 0, false}, "text", 100000},  // ctx["size"] after transform
+		{sCfg{"LZ", "TPAQ", 65536, 2, 32, 0, false}, "text", 100000}, // ctx["size"] after transform
 		{sCfg{"TEXT", "TPAQX", 65536, 2, 0, 0, false}, "text", 100000},
 	}
 	run := func(cfg sCfg, shape string, size int, hintKind string, dseed uint64, partition []int, rjobs uint) {
@@ -439,7 +439,7 @@ func runC05(c *Ctx, _ []string) {
 			size = nb*4096 - r.Intn(4096)
 		}
 		bigBWT := i == 3 // blocks above the 4 MiB threshold of the parallel inverse BWT, size in the header: with more jobs than blocks a task gets several jobs
-		many := i < 3 // more blocks than the 6-bit block-count hint of the header can express (63 = "63 or more")
+		many := i < 3    // more blocks than the 6-bit block-count hint of the header can express (63 = "63 or more")
 		if many {
 			cfg.Block = 1024
 			nb = []int{64, 65, 130}[i]
@@ -599,7 +599,7 @@ func runC06(c *Ctx, _ []string) {
 			if r.Intn(3) == 0 {
 				sizes = []int{0, 1 + r.Intn(5000), 0, 3}
 			}
-			src := &schedSource{data: ref, sched: sched}
+			src := &schedSource{data: ref, sched: sched, eofWithData: k%2 == 1}
 			jobs := uint(r.Range(1, 5))
 			rd, err := newReader(src, cfg, jobs, nil)
 			if err != nil {
